@@ -25,7 +25,10 @@ RULE = ("small MILPs with integer data in -5..9, 2-5 variables (6 thorough), eve
         "solution_limit 2/5, small max_nodes); non-trivial = the default run explored >= 2 nodes; "
         "distinct by canonical (c, A, b, integers, minimize)")
 
-MISSING = ['binary_tightening_sound [S]', 'Lp.Bnb step-by-step mirror of the best-first loop [S] (the abstract loop is proved: bnb_invariant/bnb_optimal/bnb_infeasible/bnb_gap)']
+MISSING = ["Lp.Bnb [S]: step-by-step mirror of the best-first loop of solve_milp (heap order, _solve_node bound folding) "
+           "is not written; the loop is proved at the abstract level (bnb_invariant / bnb_optimal / bnb_infeasible / "
+           "bnb_gap / heuristic_incumbent_feasible, branch_covers, binary_tightening_sound) and the implementation's "
+           "answers are judged against the certified exhaustive oracle on every explored input"]
 
 EPS = 1e-6
 GAP_TOL = 1e-6
